@@ -12,6 +12,17 @@ Definition f_reading {A} (f : A -> Z) (r : reading A) : list Z :=
 
 Definition nb (r : list N) (i : nat) : N := nth i r 0%N.
 
+(* a requested change: [0;_] keep, [1;v] set to v, [2;_] toggle, [3;_] decrease, [4;_] increase, [5;_] not defined *)
+Definition f_change {A} (f : A -> Z) (c : change A) : list Z :=
+  match c with Keep => [0; 0] | SetTo a => [1; f a] | Toggle => [2; 0] | Decrease => [3; 0] | Increase => [4; 0]
+             | NotDefined => [5; 0] end.
+(* a zone value: percent p -> p, set-point t (tenths) -> 1000 + t *)
+Definition f_zone_value (v : zone_value) : Z := match v with Percent p => Nz p | SetPointDeg t => 1000 + t end.
+Definition f_method (m : method) : Z := match m with ByPercentage => 0 | ByTemperature => 1 end.
+Definition f_zone_power (p : zone_power) : Z := match p with ZOff => 0 | ZOn => 1 | ZTurbo => 2 end.
+Definition f_onoff (p : onoff) : Z := match p with POff => 0 | POn => 1 | PAway => 2 | PSleep => 3 end.
+Definition f_fan5 (f : fan5) : Z := match f with F5 x => Nz (afan_code x) | F5IntelligentAuto => 8 end.
+
 Definition run_spec (args : list Z) : list Z :=
   match args with
   | layout :: bs =>
@@ -63,6 +74,22 @@ Definition run_spec (args : list Z) : list Z :=
       | sep :: b => let v := read_version sep b in bz (fst v) :: f_list f_bytes (snd v)
       | [] => [-1]
       end
+    else if layout =? 11 then
+      let s := read_group_ctrl (nb r 0) (nb r 1) (nb r 2) in
+      [Nz (sgc_group s)] ++ f_change f_zone_value (sgc_value s) ++ f_change f_method (sgc_method s) ++
+      f_change f_zone_power (sgc_power s)
+    else if layout =? 12 then
+      let s := read_ac_ctrl (nb r 0) (nb r 1) (nb r 2) in
+      [Nz (sac_number s)] ++ f_change f_onoff (sac_power s) ++ f_change (fun m => Nz (amode_code m)) (sac_mode s) ++
+      f_change (fun f => Nz (afan_code f)) (sac_fan s) ++ f_change (fun t => t) (sac_setpoint s)
+    else if layout =? 13 then
+      let s := read_zone_ctrl (nb r 0) (nb r 1) (nb r 2) in
+      [Nz (szc_zone s)] ++ f_change f_zone_value (szc_value s) ++ f_change f_method (szc_method s) ++
+      f_change f_zone_power (szc_power s)
+    else if layout =? 14 then
+      let s := read_ac5_ctrl (nb r 0) (nb r 1) (nb r 2) (nb r 3) in
+      [Nz (s5c_index s)] ++ f_change f_onoff (s5c_power s) ++ f_change (fun m => Nz (amode_code m)) (s5c_mode s) ++
+      f_change f_fan5 (s5c_fan s) ++ f_change (fun t => t) (s5c_setpoint s)
     else [-1]
   | [] => [-1]
   end.
